@@ -118,6 +118,30 @@ class Truth:
         for i, f in enumerate(self.faces):
             self.rings[canon_ring(f)] = i
 
+    def faces_simple(self):
+        """every face is a simple (non self-intersecting) polygon ON THE SPHERE: gnomonic projection about the
+        face's centre (great circles become straight lines), then planar validity.  A face reaching further than
+        ~84 deg from its centre cannot be projected and is taken as simple."""
+        from shapely import Polygon
+
+        lo, la = np.radians(self.lon), np.radians(self.lat)
+        v = np.stack([np.cos(la) * np.cos(lo), np.cos(la) * np.sin(lo), np.sin(la)], axis=1)
+        for f in self.faces:
+            c = v[f].sum(axis=0)
+            nc = np.linalg.norm(c)
+            if nc < 1e-9:
+                continue
+            c /= nc
+            d = v[f] @ c
+            if d.min() <= 0.1:
+                continue
+            a = np.cross(c, [0.0, 0.0, 1.0] if abs(c[2]) < 0.9 else [1.0, 0.0, 0.0])
+            a /= np.linalg.norm(a)
+            b = np.cross(c, a)
+            if not Polygon(np.stack([(v[f] @ a) / d, (v[f] @ b) / d], axis=1)).is_valid:
+                return False
+        return True
+
     def split_defined(self, p):
         """no boundary segment of exactly 180 deg (there is no shorter way round; 'split' is undefined and
         antimeridian.fix_polygon returns the whole globe)"""
@@ -350,7 +374,9 @@ class Observer:
         info["areas"] = len(per_face_area)
         for i, a in per_face_area.items():
             fa = sph_area(t.raw[p][t.faces[i]])
-            if abs(a - fa) > 1e-3 * fa + 1e-9:
+            # a ring bounds two regions of the sphere; the fan formula may return either one's area for a face
+            # wider than a hemisphere, so areas are compared modulo the complement
+            if min(abs(a - fa), abs(a - (4.0 * math.pi - fa))) > 1e-3 * fa + 1e-9:
                 info["badarea"] += 1
         return rows, info
 
@@ -792,7 +818,10 @@ def report(ctx, ux, t: Truth, ops, tag, fresh_memo):
             cause = "after-cached-conversions"
             if len(no_uncached) < len(small):
                 f2, _, _, _ = judge_history(ctx, ux, t, no_uncached, "cause", fresh_memo, record=False)
-                if not any(x["step"] == len(no_uncached) - 1 for x in f2):
+                # root cause, not symptom: THE SAME failure (same clauses at the same conversion) must disappear once
+                # the un-cached conversions are taken out of the history; the conversion may well fail in another,
+                # history-independent way that is reported under its own single-conversion signature
+                if not any(x["step"] == len(no_uncached) - 1 and x["clauses"] == f["clauses"] for x in f2):
                     cause = "after-uncached-conversion"
             sig = f"C15/history/{kind_name(op)}/{clause_sig(o, f['clauses'])}/{cause}"
             what = (f"{op_str(op)} after {len(small) - 1} earlier conversion(s) "
@@ -1045,6 +1074,10 @@ def run(ctx):
     n_hist = ctx.n(4, 14)
     for mi, (faces, lon, lat, kind) in enumerate(stream):
         t = Truth(faces, lon, lat)
+        if not t.faces_simple():
+            # e.g. a lattice generated across a pole: bow-tie faces are not faces (outside the property's quantifier)
+            ctx.hit("mesh-skipped(self-intersecting face)")
+            continue
         ctx.hit("mesh:" + kind.split("+")[0].rstrip("0123456789x"))
         check_am(ctx, ux, t)
         projs = [p for p in range(NPROJ) if t.usable[p] and t.margin_ok(p)]
